@@ -32,9 +32,11 @@ def make_new_world(rng, w, unseen_prob):
                 s.iloc[r] = 777
                 cols["k"]["v"][r] = 777
                 cols["C(k)"]["v"][r] = UNSEEN_CODE
+                cols["k#grp"]["v"][r] = UNSEEN_CODE
                 cols["C(k, levels=KL)"]["v"][r] = UNSEEN_CODE
             new["k"] = s
             touched.add("C(k)")
+            touched.add("k#grp")
             touched.add("C(k, levels=KL)")
         elif v == "o":
             # an ordered categorical: a value outside the declared categories
@@ -57,6 +59,9 @@ def make_new_world(rng, w, unseen_prob):
             new[v] = s
             touched.add(v)
     return new, {"n": n2, "cols": cols}, touched
+
+
+GRP_ALIAS = {"k": "k#grp"}   # a numeric variable used as grouping factor: the abstract column of its groups
 
 
 def _events(args):
@@ -91,7 +96,7 @@ def _events(args):
                         ev["labels"] = [gen.parse_label(l, w) for l in labs]
                     else:
                         ev["labels"] = [gen.parse_group_label(l, w) for l in labs]
-                        ev["tfac"] = [[str(c.name) for c in t.factor.components] for t in mat.terms.values()]
+                        ev["tfac"] = [[GRP_ALIAS.get(str(c.name), str(c.name)) for c in t.factor.components] for t in mat.terms.values()]
                     ev["tslices"] = [[s.start, s.stop] for s in mat.slices.values()]
                 except Exception as e:  # pylint: disable=broad-except
                     continue
@@ -102,7 +107,7 @@ def _events(args):
                         ev["data"] = design.to_int_matrix(res.design_matrix)
                         ev["slices"] = [[s.start, s.stop] for s in res.slices.values()]
                         if part == "group":
-                            ev["factors_new"] = [f.split(":") for f in res.factors_with_new_levels]
+                            ev["factors_new"] = [[GRP_ALIAS.get(p, p) for p in f.split(":")] for f in res.factors_with_new_levels]
                     except Exception as e:  # pylint: disable=broad-except
                         ev["status"] = type(e).__name__
                         ev["error"] = str(e)[:160]
